@@ -1381,15 +1381,16 @@ func (w *Writer) computeDynamicArrayLength(baseHandle ir.ExpressionHandle, strid
 		return boundsCheckLength{kind: boundsLengthNone}
 	}
 
-	// Look up the buffer size index for this global variable.
-	bufSizeIdx := -1
-	for i, h := range w.bufferSizeGlobals {
+	// The global must have a member in _mslBufferSizes; members are named
+	// after the global's handle (size<handle>), not after its position here.
+	hasBufferSize := false
+	for _, h := range w.bufferSizeGlobals {
 		if h == uint32(gv.Variable) {
-			bufSizeIdx = i
+			hasBufferSize = true
 			break
 		}
 	}
-	if bufSizeIdx < 0 {
+	if !hasBufferSize {
 		return boundsCheckLength{kind: boundsLengthNone}
 	}
 
@@ -1426,7 +1427,7 @@ func (w *Writer) computeDynamicArrayLength(baseHandle ir.ExpressionHandle, strid
 
 	return boundsCheckLength{
 		kind:          boundsLengthDynamic,
-		dynamicGlobal: uint32(bufSizeIdx),
+		dynamicGlobal: uint32(gv.Variable),
 		memberOffset:  lastMember.Offset,
 		elementSize:   elementSize,
 		stride:        stride,
